@@ -21,6 +21,7 @@ FULL = {
     "retype": True,
 }
 FULL["ops"].append("rm_par_all")
+FULL["ops"].append("parts")
 # structural operations only: deeper histories for the same budget
 STRUCT = dict(FULL, ops=["mk_group", "add_data", "pg_add", "pg_rm", "move", "copy", "rm_ws", "rm_par", "reopen", "gc"],
               dkinds=("fv",), classes=("Points",), pgs=("P",), caps={"groups": 3, "objects": 3, "data_per_object": 3, "entities": 14},
